@@ -51,13 +51,15 @@ ANCHORS = [
     ("deepali.spatial.composite", "CompositeTransform.disp"),
     ("deepali.spatial.base", "SpatialTransform.disp"),
     ("deepali.spatial.base", "SpatialTransform.points"),
+    ("deepali.losses.pointset", "ClosestPointDistance.forward"),
+    ("deepali.spatial.parametric", "ParametricTransform.data_"),
 ]
 N_REPS = {"quick": 2, "thorough": 40}
 BUDGET = {"quick": 600, "thorough": 5400}
 
 
 def catalogue():
-    names = [f"transform/{n}/{v}" for n in X.ALL for v in ("forward", "inverse", "disp", "disp_resized", "disp_other", "points_world", "warp_image", "warp_other_grids", "pointset_transformer")]
+    names = [f"transform/{n}/{v}" for n in X.ALL for v in ("forward", "forward_after_data_", "inverse", "disp", "disp_resized", "disp_other", "points_world", "warp_image", "warp_other_grids", "pointset_transformer")]
     names += [f"fn/{n}" for n in FUNCS] + [f"loss/{n}" for n in LOSSES]
     return names
 
@@ -71,7 +73,7 @@ FUNCS = [
 ]
 LOSSES = [
     "mse_loss", "ssd_loss", "mae_loss", "l1_loss", "huber_loss", "smooth_l1_loss", "mse_loss/mask", "ncc_loss", "lcc_loss", "wlcc_loss", "lcc_loss/mask", "mi_loss", "nmi_loss", "dice_loss", "tversky_loss",
-    "grad_loss", "bending_loss", "curvature_loss", "diffusion_loss", "divergence_loss", "elasticity_loss", "total_variation_loss", "bspline_bending_loss", "inverse_consistency_loss", "bending_loss/bspline",
+    "closest_point_distance", "landmark_point_distance", "grad_loss", "bending_loss", "curvature_loss", "diffusion_loss", "divergence_loss", "elasticity_loss", "total_variation_loss", "bspline_bending_loss", "inverse_consistency_loss", "bending_loss/bspline",
 ]
 
 
@@ -239,6 +241,17 @@ def transform_op(ctx, name, rep, info):
         t.update()
     x = t64(rng.uniform(-0.7, 0.7, size=(groups, 7, D)))
     if variant == "forward":
+        ev = lambda: t(x)  # noqa: E731
+    elif variant == "forward_after_data_":
+        # setters replace the parameter object (data_, and through it offset_/angles_/... and grid_): the new one
+        # must still be optimisable and reach the output
+        n_before = len(params)
+        for mod in t.modules():
+            if hasattr(mod, "data_") and isinstance(getattr(mod, "params", None), torch.nn.Parameter):
+                mod.data_(mod.params.detach().clone() * 0.9)
+        params = [p for p in t.parameters() if p.requires_grad]
+        if not ctx.true("parameters_still_optimisable_after_data_", len(params) == n_before and n_before > 0, key=f"grad/{name}/frozen", before=n_before, after=len(params), **info):
+            return
         ev = lambda: t(x)  # noqa: E731
     elif variant == "inverse":
         if cls not in X.INVERTIBLE:
@@ -467,6 +480,14 @@ def loss_op(ctx, name, rep, info):
         p = (x.detach() * 0.8 + 0.1).requires_grad_(True)
         fn = LF.dice_loss if name == "dice_loss" else (lambda a, b: LF.tversky_loss(a, b, alpha=0.3, beta=0.7))
         return gradcheck(ctx, L, [p], lambda: fn(p, seg), info, f32=True)
+    if name in ("closest_point_distance", "landmark_point_distance"):
+        from deepali.losses import pointset as PS
+
+        K = 9 if name == "landmark_point_distance" else 13
+        px = torch.tensor(rng.uniform(-1, 1, size=(N, 9, D)), dtype=torch.float32, requires_grad=True)
+        py = torch.tensor(rng.uniform(-1, 1, size=(N, K, D)), dtype=torch.float32, requires_grad=True)
+        term = PS.ClosestPointDistance() if name == "closest_point_distance" else PS.LandmarkPointDistance()
+        return gradcheck(ctx, L, [px, py], lambda: term(px, py), info, f32=True)
     if name == "grad_loss":
         return gradcheck(ctx, L, [u], lambda: LF.grad_loss(u, p=2, q=0.5, spacing=0.5), info)
     if name in ("bending_loss", "curvature_loss", "diffusion_loss", "divergence_loss", "total_variation_loss"):
